@@ -22,6 +22,10 @@ FATAL = {
     "C12": {"always": ("Growth",), "must_exercise": ("Growth",)},
     "C13": {"always": ("ShrinkPost",), "must_exercise": ("ShrinkPost",)},
     "C04": {},
+    "C14": {"conv": ("IntText",)},
+    "C15": {"conv": ("BoolText", "CharText", "StrText", "DispOK", "FloatOK")},
+    "C16": {"codec": ("utf8", "utf8_lossy", "utf16", "utf16_lossy", "memory")},
+    "C19": {"codec": ("de_*",), "conv": ("SerOK", "ArbOK")},
     "C18": {"always": ("CallbackPanicOK",), "when": {"cbpanic": ("RcOK", "BlocksOK", "EndClean", "TextOK", "Isolation", "Abort")},
             "shim": MEMSHIM, "shim_when": "cbpanic", "must_exercise": ("CallbackPanicOK",)},
 }
@@ -64,9 +68,14 @@ PROFILES = {
     "C08": {"quick": [SEED2, dq("mixed")], "thorough": [SEED2, CORE4, dt("mixed")]},
     "C09": {"quick": [SEED2, CORE3, dq("mixed")], "thorough": [SEED2, CORE4, dt("mixed")]},
     "C10": {"quick": [SEED2, dq("mixed")], "thorough": [SEED2, CORE4, dt("mixed")]},
-    "C11": {"quick": [SEED2, CORE3, dq("mixed")], "thorough": [SEED2, CORE4, dt("mixed")]},
-    "C12": {"quick": [SEED2, CORE3, dq("mixed")], "thorough": [SEED2, CORE4, dt("mixed")]},
-    "C13": {"quick": [SEED2, CORE3, dq("mixed")], "thorough": [SEED2, CORE4, dt("mixed")]},
+    "C11": {"quick": [SEED2, CORE3, FAIL2, dq("all")], "thorough": [SEED2, CORE4, FAIL2, SIZES2, dt("all")]},
+    "C12": {"quick": [SEED2, CORE3, FAIL2, dq("all")], "thorough": [SEED2, CORE4, FAIL2, SIZES2, dt("all")]},
+    "C13": {"quick": [SEED2, CORE3, FAIL2, dq("all")], "thorough": [SEED2, CORE4, FAIL2, SIZES2, dt("all")]},
+    "C14": {"quick": [{"kind": "conv"}], "thorough": [{"kind": "conv"}, {"kind": "sweep", "what": "u32"}, {"kind": "sweep", "what": "i32"}]},
+    "C15": {"quick": [{"kind": "conv"}], "thorough": [{"kind": "conv"}, {"kind": "sweep", "what": "f32"}]},
+    "C16": {"quick": [{"kind": "codec", "cfg": "MC_Codec_u8_q"}, {"kind": "codec", "cfg": "MC_Codec_u16_q"}],
+            "thorough": [{"kind": "codec", "cfg": "MC_Codec_u8_t"}, {"kind": "codec", "cfg": "MC_Codec_u16_t"}]},
+    "C19": {"quick": [{"kind": "codec", "cfg": "MC_Codec_u8_q"}, {"kind": "conv"}], "thorough": [{"kind": "codec", "cfg": "MC_Codec_u8_t"}, {"kind": "conv"}]},
     "C18": {"quick": [SEED2, dq("callbacks")], "thorough": [SEED2, dt("callbacks")]},
 }
 
@@ -96,3 +105,15 @@ CLAIMS["C04"] = {
     "ref": "DESIGN.md 3.5, 5 C04",
     "technique": "explicit TLA+ micro-step specification with a vector-clock C11 model checked by TLC; TLC-generated schedules replayed on gated real threads; happens-before trace validation of the recorded events",
 }
+
+_CONV_NOTE = ("Trusted: TLC, the oracle modules (Codec.tla written from the Unicode standard's well-formed-sequence table and maximal-subpart rule; Convert.tla's long "
+              "division), the harness. The oracle is cross-checked against std on every input (a disagreement is a tool error, not a verdict). Bounded: sequence "
+              "length and class alphabets of MC_Codec_*.cfg; value families of harness/src/convert.rs (exhaustive for 8-bit, 16-bit in the thorough tier).")
+CLAIMS["C14"] = {"text": "Every recorded to_lean_string() of an integer (24 types: all powers of ten and two +-3, extremes, unrolled-writer branch points, random values of every digit count; exhaustive for 8-bit types, 16-bit in the thorough tier) is validated by a TLC monitor that recomputes the decimal text by long division on base-2^16 limbs. The 2^32 sweeps of the thorough tier run outside TLC and are reported as such.", "note": _CONV_NOTE, "ref": "DESIGN.md 5 C14",
+                 "technique": "TLA+ decimal oracle (Convert.tla) validating recorded conversions by TLC trace validation"}
+CLAIMS["C15"] = {"text": "bool/char/String/LeanString/user Display types writing 0-3 pieces with a failure after every piece: the TLC monitor states the text (UTF-8 encoding, concatenation, Err(Fmt) and no string on failure); floats: class texts, alphabet, sign, and the harness-evaluated parse round trip on every exponent, mantissa extremes and random patterns (all 2^32 f32 patterns in the thorough tier, outside TLC).", "note": _CONV_NOTE, "ref": "DESIGN.md 5 C15",
+                 "technique": "TLA+ conversion monitor (Convert.tla) validating recorded conversions by TLC trace validation"}
+CLAIMS["C16"] = {"text": "TLC enumerates ALL byte sequences up to length 4 (quick) / 5 (thorough) over a 17-symbol alphabet with a representative of every UTF-8 byte class and all u16 sequences up to length 4 / 6 over surrogate-boundary classes, stating validity and the lossy text per the Unicode standard; every sequence is replayed bare and padded across the inline limit on from_utf8, from_utf8_lossy, from_utf16, from_utf16_lossy and on std's counterparts.", "note": _CONV_NOTE, "ref": "DESIGN.md 5 C16",
+                 "technique": "TLA+ decoder specification (Codec.tla) exhaustively enumerated by TLC; every enumerated input replayed on the crate"}
+CLAIMS["C19"] = {"text": "Serialize: a recording Serializer sees exactly one serialize_str(text), identical to String's; Deserialize: every enumerated byte sequence through visit_bytes/borrowed_bytes/byte_buf (Ok(text) iff well-formed per Codec.tla) and every well-formed one through visit_str/borrowed_str/string; Arbitrary: same text / same error as <&str>::arbitrary on all inputs up to 3 bytes over 7 classes plus random ones, both entry points.", "note": _CONV_NOTE, "ref": "DESIGN.md 5 C19",
+                 "technique": "TLA+ decoder specification enumerated by TLC and replayed through the serde visitors; TLC monitor over recorded serializer calls and arbitrary results"}
